@@ -26,7 +26,7 @@ def hexColor (a b c d e f : Char) : Color :=
   { name := ['#', a, b, c, d, e, f], type := .truecolor,
     triplet := some ⟨16 * hexVal a + hexVal b, 16 * hexVal c + hexVal d, 16 * hexVal e + hexVal f⟩ }
 
-theorem hex_color_wf (v : Variant) (a b c d e f : Char)
+theorem hex_color_wf (v : StyleVariant) (a b c d e f : Char)
     (h : [a, b, c, d, e, f].all isHexLower = true) : wfColor v (hexColor a b c d e f) = true := by
   simp only [List.all_cons, List.all_nil, Bool.and_true, Bool.and_eq_true] at h
   obtain ⟨ha, hb, hc, hd, he, hf⟩ := h
@@ -101,7 +101,7 @@ def rgbText (r g b : Nat) : List Char := cl! "rgb(" ++ (dec r ++ ',' :: (dec g +
 
 def rgbColor (r g b : Nat) : Color := { name := rgbText r g b, type := .truecolor, triplet := some ⟨r, g, b⟩ }
 
-theorem rgb_color_wf (v : Variant) (r g b : Nat) (hr : r < 256) (hg : g < 256) (hb : b < 256) :
+theorem rgb_color_wf (v : StyleVariant) (r g b : Nat) (hr : r < 256) (hg : g < 256) (hb : b < 256) :
     wfColor v (rgbColor r g b) = true := by
   have tbl : ∀ n, n < 256 → (∀ c ∈ dec n, isDigit c = true ∧ plainChar c = true ∧ (c == ',') = false) ∧
       dec n ≠ [] ∧ pyInt (dec n) = some n := by
